@@ -226,14 +226,29 @@ def _one(args):
 
 
 def run_impl(L, scenarios):
+    out = []
+    for i in range(0, len(scenarios), 1000):
+        out += _run_batch(L, scenarios[i:i + 1000])
+    return out
+
+
+def _run_batch(L, scenarios):
+    # a fresh squid every 1000 scenarios: each scenario caches five objects and a full (non-shared) memory cache does
+    # not keep new entries until its next maintenance pass - the thorough tier then reported `fail notcached2` for
+    # every scenario after ~5400 (a false alarm of this check, not a C20 violation)
+    if "sq" in _state and _state["sq"].alive() and _state.get("since", 0) >= 1000:
+        _state["sq"].stop()
     if "sq" not in _state or not _state["sq"].alive():
-        _state["org"] = L.origin(hook=_hook)
-        _state["sq"] = L.squid(cache_mem="64 MB")
-        _state["n"] = 0
+        if "org" not in _state:
+            _state["org"] = L.origin(hook=_hook)
+            _state["n"] = 0
+        _state["sq"] = L.squid(cache_mem="256 MB")
+        _state["since"] = 0
     sq, org = _state["sq"], _state["org"]
     jobs = []
     for s in scenarios:
         _state["n"] += 1
+        _state["since"] += 1
         jobs.append((sq, org, s, "c%d" % _state["n"]))
     with concurrent.futures.ThreadPoolExecutor(max_workers=8) as ex:
         return list(ex.map(_one, jobs))
